@@ -39,6 +39,7 @@ class Ref(Expression):
     def argumentize(self, out, flags):
         # (A rule that is passed as an argument is looked up in the context,
         # like any other reference, so that a subgrammar can override it.)
-        if flags.uses_context and not self.is_local and not self.is_super:
+        is_rule = self._resolved is not None and not self.is_super
+        if flags.uses_context and not self.is_local and is_rule:
             return Code(f'_ctx.{self.resolved}')
         return Code(self.resolved)
